@@ -24,6 +24,6 @@ SPEC = dict(
                "oracle = base + kept segments replayed by real SQLite vs live database bytes, and salt-based reset detection.",
     technique="Coq invariant proof over all schedules + differential run against real SQLite and the real CheckpointManager + replay byte oracle",
     design_ref="6/C06",
-    shard=40, coq_jobs=8,
+    shard=30, coq_jobs=8,
     timeout_quick=600, timeout_thorough=14400,
 )
